@@ -501,19 +501,29 @@ func (h *hrun) opDial(dnode int, kind string, l *hlis, s *hsock) {
 		h.aborted = true
 		return
 	}
-	var ac *netceptor.Conn
-	select {
-	case ac = <-l.acc:
-	case <-time.After(3 * time.Second):
-		h.res.violate("a successful dial was not handed to Accept within 3s", "accept-missing", h.labels)
-		h.aborted = true
-		return
-	}
-	h.nextID++
 	ename := c.LocalAddr().String()
 	if i := strings.LastIndex(ename, ":"); i >= 0 {
 		ename = ename[i+1:]
 	}
+	var ac *netceptor.Conn
+	deadline := time.After(3 * time.Second)
+	for ac == nil {
+		select {
+		case x := <-l.acc:
+			if strings.HasSuffix(x.RemoteAddr().String(), ":"+ename) {
+				ac = x
+			} else {
+				// handed over late for a dial that had given up: the application closes it
+				_ = x.Close()
+				h.res.hist("accepted-for-a-dial-that-gave-up")
+			}
+		case <-deadline:
+			h.res.violate("a successful dial was not handed to Accept within 3s", "accept-missing", h.labels)
+			h.aborted = true
+			return
+		}
+	}
+	h.nextID++
 	hc := &hconn{id: h.nextID, dnode: dnode, lis: l, d: c, a: ac, ename: ename}
 	h.conns = append(h.conns, hc)
 	// the stream works
@@ -654,6 +664,18 @@ func (h *hrun) opShutdown(node int) {
 func (h *hrun) checkpoint(final bool) {
 	h.fpause.Store(true)
 	time.Sleep(5 * time.Millisecond)
+	// connections handed to Accept for dials that had already given up are the application's to close
+	for _, l := range h.liss {
+		for more := true; more; {
+			select {
+			case x := <-l.acc:
+				_ = x.Close()
+				h.res.hist("accepted-for-a-dial-that-gave-up")
+			default:
+				more = false
+			}
+		}
+	}
 	quiet := 300 * time.Millisecond
 	if h.connOps {
 		quiet = connQuiet()
@@ -894,9 +916,9 @@ func (h *hrun) history(n int, allowShutdown bool, idx int) {
 					openTLS = append(openTLS, l)
 				}
 			}
-			switch y := r.Intn(12); {
+			switch y := r.Intn(13); {
 			case y >= 10 && len(open) > 0:
-				if y == 11 && len(openTLS) > 0 {
+				if y == 12 && len(openTLS) > 0 {
 					h.opDial(node, "tls-mismatch", openTLS[r.Intn(len(openTLS))], nil)
 				} else {
 					h.opDial(node, "short-ctx", open[r.Intn(len(open))], nil)
